@@ -176,13 +176,17 @@ struct Run {
 }
 
 fn run_str(text: &str, b: Budget, multi: bool) -> Option<Run> {
+    run_str_t::<Json>(text, b, multi)
+}
+
+fn run_str_t<T: serde::de::DeserializeOwned>(text: &str, b: Budget, multi: bool) -> Option<Run> {
     let reports: Rc<RefCell<Vec<BudgetReport>>> = Rc::new(RefCell::new(Vec::new()));
     let r2 = reports.clone();
     let opts = options_with(b).with_budget_report(move |r| r2.borrow_mut().push(r));
     let res = if multi {
-        guard(|| serde_saphyr::from_multiple_with_options::<Json>(text, opts).map(|_| ()))
+        guard(|| serde_saphyr::from_multiple_with_options::<T>(text, opts).map(|_| ()))
     } else {
-        guard(|| serde_saphyr::from_str_with_options::<Json>(text, opts).map(|_| ()))
+        guard(|| serde_saphyr::from_str_with_options::<T>(text, opts).map(|_| ()))
     };
     let res = res.ok()?;
     Some(Run {
@@ -192,6 +196,10 @@ fn run_str(text: &str, b: Budget, multi: bool) -> Option<Run> {
 }
 
 fn run_reader(text: &str, b: Budget, chunking: &Chunking) -> Option<(Run, SimReader)> {
+    run_reader_t::<Json>(text, b, chunking)
+}
+
+fn run_reader_t<T: serde::de::DeserializeOwned>(text: &str, b: Budget, chunking: &Chunking) -> Option<(Run, SimReader)> {
     let reports: Rc<RefCell<Vec<BudgetReport>>> = Rc::new(RefCell::new(Vec::new()));
     let r2 = reports.clone();
     let opts = options_with(b).with_budget_report(move |r| r2.borrow_mut().push(r));
@@ -203,7 +211,7 @@ fn run_reader(text: &str, b: Budget, chunking: &Chunking) -> Option<(Run, SimRea
         },
     );
     let h = rd.clone();
-    let res = guard(|| serde_saphyr::from_reader_with_options::<_, Json>(rd, opts).map(|_| ())).ok()?;
+    let res = guard(|| serde_saphyr::from_reader_with_options::<_, T>(rd, opts).map(|_| ())).ok()?;
     Some((
         Run {
             result: res.map_err(|e| breach_of(&e)),
@@ -303,6 +311,18 @@ fn run_iter_validating(which: usize, text: &str, b: Budget, chunking: &Chunking,
 
 /// items of the streaming iterator as Ok / breach name / error kind
 fn run_iter(text: &str, b: Budget, chunking: &Chunking, max_calls: usize) -> Option<(Vec<Result<(), String>>, bool, SimReader)> {
+    run_iter_t::<Json>(text, b, chunking, max_calls).map(|(i, t, h, _)| (i, t, h))
+}
+
+/// the same with the reports handed to the callback (one at the end of the stream)
+fn run_iter_t<T: serde::de::DeserializeOwned>(
+    text: &str,
+    b: Budget,
+    chunking: &Chunking,
+    max_calls: usize,
+) -> Option<(Vec<Result<(), String>>, bool, SimReader, Vec<BudgetReport>)> {
+    let reports: Rc<RefCell<Vec<BudgetReport>>> = Rc::new(RefCell::new(Vec::new()));
+    let r2 = reports.clone();
     let mut rd = SimReader::new(
         text.as_bytes(),
         ReaderScript {
@@ -311,11 +331,11 @@ fn run_iter(text: &str, b: Budget, chunking: &Chunking, max_calls: usize) -> Opt
         },
     );
     let h = rd.clone();
-    let opts = options_with(b);
+    let opts = options_with(b).with_budget_report(move |r| r2.borrow_mut().push(r));
     let mut items = Vec::new();
     let mut terminated = false;
     guard(|| {
-        let mut it = serde_saphyr::read_with_options::<_, Json>(&mut rd, opts);
+        let mut it = serde_saphyr::read_with_options::<_, T>(&mut rd, opts);
         for _ in 0..max_calls {
             match it.next() {
                 Some(r) => items.push(r.map(|_| ()).map_err(|e| breach_of(&e))),
@@ -327,7 +347,8 @@ fn run_iter(text: &str, b: Budget, chunking: &Chunking, max_calls: usize) -> Opt
         }
     })
     .ok()?;
-    Some((items, terminated, h))
+    let reps = reports.borrow().clone();
+    Some((items, terminated, h, reps))
 }
 
 // Recursive structures: an alias to the anchor that is still being deserialized is answered without
@@ -517,6 +538,16 @@ pub fn exec(c: &BudgetCase, st: &mut Stats) -> Vec<Viol> {
                     for (w, name) in OTHER_ENTRIES.iter().enumerate() {
                         runs.push((name.to_string(), run_other(w, &dtext, with_limit(cn, limit), &c.chunking)));
                     }
+                    // a target that reads nothing has its document read on its behalf: same verdict, same report
+                    runs.push(("from_multiple into a no-op target".into(), run_str_t::<crate::types::Noop>(&dtext, with_limit(cn, limit), true)));
+                    // a best-effort target keeps what it could read and goes on: same verdict, same report
+                    type Be = crate::types::BestEffortTree;
+                    runs.push(("from_str into a best-effort target".into(), run_str_t::<Be>(&dtext, with_limit(cn, limit), false)));
+                    runs.push(("from_multiple into a best-effort target".into(), run_str_t::<Be>(&dtext, with_limit(cn, limit), true)));
+                    runs.push((
+                        "from_reader into a best-effort target".into(),
+                        run_reader_t::<Be>(&dtext, with_limit(cn, limit), &c.chunking).map(|x| x.0),
+                    ));
                     // the same document closed by `...` and followed by text the scanner rejects: that text is
                     // ignored by the single-document entry points, the budget is not (the stream then has no
                     // StreamEnd event, so the events counter is left out)
@@ -767,6 +798,22 @@ pub fn exec(c: &BudgetCase, st: &mut Stats) -> Vec<Viol> {
                 let _ = f_items;
             }
         }
+        // the report at the end of the stream: one invocation, and the number of documents read (not limited
+        // under per-document enforcement, but reported)
+        if let Some((items, term, _, reps)) = run_iter_t::<Json>(&full_text, unlimited(), &c.chunking, full.len() + 4) {
+            st.evals += 1;
+            if term && items.iter().all(|i| i.is_ok()) {
+                if reps.len() != 1 {
+                    out.push(mk("report-callback-count", format!("read_with_options: {} callback invocations for a stream read to its end", reps.len()), vec![]));
+                } else if reps[0].documents != full.len() {
+                    out.push(mk(
+                        "report-differs-from-model",
+                        format!("read_with_options: the report says {} documents, the stream has {}", reps[0].documents, full.len()),
+                        vec![Counter::Documents],
+                    ));
+                }
+            }
+        }
         for &cn in &c.counters {
             if cn == Counter::Documents {
                 continue; // ignored under per-document enforcement
@@ -789,6 +836,22 @@ pub fn exec(c: &BudgetCase, st: &mut Stats) -> Vec<Viol> {
                 if !a_term || !f_term {
                     out.push(mk("iterator-not-terminated", format!("{cn:?} limit {limit}"), vec![cn]));
                     continue;
+                }
+                // targets that read nothing, or that keep going after a failure, get the same items
+                for (tname, r) in [
+                    ("a no-op target", run_iter_t::<crate::types::Noop>(&alone_text, with_limit(cn, limit), &c.chunking, 6)),
+                    ("a best-effort target", run_iter_t::<crate::types::BestEffortTree>(&alone_text, with_limit(cn, limit), &c.chunking, 6)),
+                ] {
+                    let Some((t_items, t_term, _, _)) = r else { continue };
+                    st.evals += 1;
+                    st.bump("fired.per_document_limit_lenient_target");
+                    if t_items != a_items || t_term != a_term {
+                        out.push(mk(
+                            "lenient-target-changes-verdict",
+                            format!("{cn:?} limit {limit} (document's own usage {n}): read_with_options into the untyped tree gives {a_items:?}, into {tname} {t_items:?}"),
+                            vec![cn],
+                        ));
+                    }
                 }
                 let a = a_items.first().cloned();
                 let f = f_items.get(pos).cloned();
